@@ -22,7 +22,8 @@ class CsrEvMonWorld(World):
     fault_kinds = ("abort", "gap", "event_in_clearing_cycle", "events_between_chunks",
                    "write_zero_mask", "read_while_events_arrive", "event_map_queried_before_complete",
                    "second_instance_in_process",
-                   "decoder_windows_at_explicit_addresses_in_any_order", "domain_reset")
+                   "decoder_windows_at_explicit_addresses_in_any_order", "domain_reset",
+                   "repeated_add")
     assumptions = (
         "Amaranth's Python RTL simulator executes the elaborated netlist faithfully",
         "a reset of the clock domain returns the component to its initial state (the state the "
@@ -51,7 +52,8 @@ class CsrEvMonWorld(World):
                 "dec_slots": rng.choice([None, None] + [[a, b] for a in range(4) for b in range(4)
                                                         if a != b]),
                 "dec_mon_first": int(rng.chance(0.5)), "omit": int(rng.chance(0.3)),
-                "dec_al": rng.choice([0, 0, 1, 2, 3])}
+                "dec_al": rng.choice([0, 0, 1, 2, 3]),
+                "readd": rng.bits(16) if rng.chance(0.25) else 0}
 
     def gen_ops(self, rng, config, prop):
         dw = config["dw"]
@@ -88,6 +90,9 @@ class CsrEvMonWorld(World):
                 for i, tr in enumerate(config["srcs"])]
         for i_, s in enumerate(srcs):
             em.add(s)
+            if (int(config.get("readd") or 0) >> (i_ % 16)) & 1:
+                em.add(srcs[(i_ * 5) % (i_ + 1)])       # a source that is already in the map
+                stats.fault("repeated_add")
             if config.get("peek_sources") and i_ == len(srcs) // 2:
                 list(em.sources())      # API order: the map is queried before it is complete
                 em.size
